@@ -300,6 +300,101 @@ pub fn c04(cfg: &Value) {
     drop(handle);
 }
 
+/// C01: an entry appended from the writer thread itself (the stream's `next` appends a follow-up
+/// entry through a handle of the same queue, as an entry's Drop or an auditing stream would).
+pub fn c01_writer_thread_append(cfg: &Value) {
+    let boxed = cfg["boxed"].as_bool().unwrap_or(false);
+    let n = cfg["n"].as_u64().unwrap_or(2) as usize;
+    let (mut stream, log) = RecStream::new(BTreeMap::new());
+    // the handle the stream uses is put into the slot before the first append
+    let slot: std::sync::Arc<std::sync::Mutex<Option<Q>>> = Default::default();
+    {
+        let slot = slot.clone();
+        stream.on_next = Some(Box::new(move |seen| {
+            if let Seen::Tagged(t) = seen {
+                if t.p == 0 {
+                    let q = slot.lock().unwrap_or_else(|e| e.into_inner()).clone();
+                    if let Some(q) = q {
+                        q.append(Tag { p: 9, seq: t.seq });
+                    }
+                }
+            }
+        }));
+    }
+    let (q, handle) = build(boxed, 8, stream);
+    *slot.lock().unwrap_or_else(|e| e.into_inner()) = Some(q.clone());
+    for si in 0..n {
+        q.append(Tag { p: 0, seq: si as u8 });
+    }
+    // a flush request orders the follow-up entries before the shutdown begins
+    let ((), _snap) = wait_with_snapshot(q.flush_async(), &log);
+    let ((), _snap) = wait_with_snapshot(q.flush_async(), &log);
+    *slot.lock().unwrap_or_else(|e| e.into_inner()) = None;
+    drop(q);
+    drop(handle);
+    let end = log.lock().unwrap_or_else(|e| e.into_inner()).clone();
+    mc::outcome(log_string(&end));
+    let seen = tags_in(&end);
+    for si in 0..n {
+        for p in [0u8, 9] {
+            let t = Tag { p, seq: si as u8 };
+            let count = seen.iter().filter(|x| **x == t).count();
+            if count != 1 {
+                mc::violation(
+                    "entry-appended-on-the-writer-thread-not-written-exactly-once",
+                    format!("entry {t} ({}) reached the stream {count} times: {}", if p == 9 { "appended from inside the stream's next, on the writer thread" } else { "appended by main" }, log_string(&end)),
+                );
+            }
+        }
+    }
+}
+
+/// C04: while the writer flushes the stream for request r1, 40 entries and request r2 arrive (from
+/// inside the stream's flush, i.e. deterministically in that window); the next drain pass is cut
+/// short by the flush deadline (clock jump at the k-th clock read). r2 may complete only when all
+/// 41 entries were written and flushed.
+pub fn c04_request_during_flush(cfg: &Value) {
+    let burst = cfg["burst"].as_u64().unwrap_or(40) as usize;
+    if let Some(k) = cfg["jump_k"].as_u64() {
+        vtime::jump_at_read(k, Duration::from_secs(2));
+    }
+    let (mut stream, log) = RecStream::new(BTreeMap::new());
+    let slot: std::sync::Arc<std::sync::Mutex<Option<Q>>> = Default::default();
+    let second: std::sync::Arc<std::sync::Mutex<Option<metrique_writer_core::sink::FlushWait>>> = Default::default();
+    {
+        let (slot, second) = (slot.clone(), second.clone());
+        let mut fired = false;
+        stream.on_flush = Some(Box::new(move |_idx| {
+            let q = slot.lock().unwrap_or_else(|e| e.into_inner()).clone();
+            if let (false, Some(q)) = (fired, q) {
+                fired = true;
+                for si in 0..burst {
+                    q.append(Tag { p: 1, seq: si as u8 });
+                }
+                *second.lock().unwrap_or_else(|e| e.into_inner()) = Some(q.flush_async());
+            }
+        }));
+    }
+    let (q, handle) = build(false, 128, stream);
+    q.append(Tag { p: 0, seq: 0 });
+    // only from now on may the flush callback fire (the periodic flush before would be too early)
+    *slot.lock().unwrap_or_else(|e| e.into_inner()) = Some(q.clone());
+    let ((), _snap1) = wait_with_snapshot(q.flush_async(), &log);
+    let r2 = second.lock().unwrap_or_else(|e| e.into_inner()).take();
+    if let Some(r2) = r2 {
+        let mut before = vec![Tag { p: 0, seq: 0 }];
+        before.extend((0..burst).map(|si| Tag { p: 1, seq: si as u8 }));
+        let ((), snap) = wait_with_snapshot(r2, &log);
+        mc::outcome(format!("r2 completed with {} entries written", tags_in(&snap).len()));
+        check_flush_snapshot("request-during-flush", &before, &snap, |_| false);
+    } else {
+        mc::outcome("the stream was not flushed for r1 while the slot was set".into());
+    }
+    *slot.lock().unwrap_or_else(|e| e.into_inner()) = None;
+    drop(q);
+    drop(handle);
+}
+
 /// C05 drop path: a producer thread appends concurrently with main dropping the join handle.
 pub fn c05_drop(cfg: &Value) {
     let boxed = cfg["boxed"].as_bool().unwrap_or(false);
